@@ -328,7 +328,7 @@ def count(d, k, n=1):
 
 
 def _rejects(o):
-    return isinstance(o, str) and o.startswith("raised:") and o != "raised:none"
+    return isinstance(o, str) and o.startswith(("raised:", "rejected:")) and o != "raised:none"
 
 
 class Session:
@@ -1284,25 +1284,44 @@ class Session:
             vis = sorted(src.vlp, key=str)
             if not vis:
                 return {"op": "abort", "outcome": "skipped:no-choices"}
-            drop = [a for a in vis if r.random() < 0.4] or [vis[0]]
-            keep = [[list(a), src.x[a]] for a in vis if a not in drop]
+            drops = [[a for a in vis if r.random() < 0.4] or [vis[0]]]
+            if self.script.get("missing_sites"):
+                # ... and whole call sites of the root function (every element of a
+                # vmapped / repeated distribution at one address): each site alone
+                # (the rest supplied), then a random set of sites
+                sr = static_root(self.node)
+                sites = [tuple(s_["addr"]) for s_ in sr["stmts"]] if sr else []
+                sites = [g_ for g_ in sites if any(a[: len(g_)] == g_ for a in vis)]
+                for g_ in sites[:4]:
+                    drops.append([a for a in vis if a[: len(g_)] == g_])
+                extra = list(drops[0])
+                for g_ in sites:
+                    if r.random() < 0.3:
+                        extra += [a for a in vis if a[: len(g_)] == g_ and a not in extra]
+                drops.append(extra)
             leaves = {a: self.uni[a] for a in vis}
-            chm = build_chm(keep, leaves, "set")
             self.fire("abort:missing")
-            # reference: MissingAddress iff some visited static call site has an empty submap
-            want_raise = self.ref_missing_expected(src, set(drop))
-            try:
-                gf.assess(chm, src.tr.get_args())
-                raised = None
-            except Exception as e:
-                raised = e
-            if want_raise is True and raised is None:
-                self.viol("C22.missing-not-raised", {"C22"}, i, rep, "assess without %s returned instead of raising MissingAddress" % (drop,))
-            elif want_raise is True and type(raised).__name__ != "MissingAddress":
-                self.viol("C22.missing-wrong-exception", {"C22"}, i, rep, "assess without %s raised %s: %s" % (drop, type(raised).__name__, str(raised)[:200]), "crash")
-            elif want_raise is False and raised is not None and type(raised).__name__ == "MissingAddress":
-                self.viol("C22.missing-spurious", {"C22"}, i, rep, "assess raised MissingAddress(%s) although every static call site has a non-empty submap" % (raised,))
-            return {"op": "abort", "outcome": "raised:" + (type(raised).__name__ if raised else "none")}
+            first = None
+            for drop in drops:
+                keep = [[list(a), src.x[a]] for a in vis if a not in drop]
+                chm = build_chm(keep, leaves, "set")
+                # reference: MissingAddress iff some visited static call site has an empty submap
+                want_raise = self.ref_missing_expected(src, set(drop))
+                self.probe("missing:%s" % {True: "must-raise", False: "must-not-raise", None: "undecided"}[want_raise])
+                try:
+                    gf.assess(chm, src.tr.get_args())
+                    raised = None
+                except Exception as e:
+                    raised = e
+                if want_raise is True and raised is None:
+                    self.viol("C22.missing-not-raised", {"C22"}, i, rep, "assess without %s returned instead of raising MissingAddress" % (drop,))
+                elif want_raise is True and type(raised).__name__ != "MissingAddress":
+                    self.viol("C22.missing-wrong-exception", {"C22"}, i, rep, "assess without %s raised %s: %s" % (drop, type(raised).__name__, str(raised)[:200]), "crash")
+                elif want_raise is False and raised is not None and type(raised).__name__ == "MissingAddress":
+                    self.viol("C22.missing-spurious", {"C22"}, i, rep, "assess raised MissingAddress(%s) although every static call site has a non-empty submap" % (raised,))
+                if first is None:
+                    first = "raised:" + (type(raised).__name__ if raised else "none")
+            return {"op": "abort", "outcome": first}
         if kind == "stray":
             ents = st["stray"]
             leaves = dict(self.cons)
